@@ -14,6 +14,80 @@ def driver(scenarios, tag):
     return vf.run_driver(PID, PKG, TEST, scenarios, tag, timeout=1500)
 
 
+# the WIRED family (spec/SignerCaller.tla): real attester in front of the real signer, real wallet account manager,
+# validators manager and submitter behind / beside them, fakes at the beacon node
+PKG_CALLER = "./services/attester/standard"
+TEST_CALLER = "TestVerifC06Caller"
+N_CALLER_QUICK = (300, 150)       # (histories with a filtered validator ahead of a served one, others)
+N_CALLER_THOROUGH = (None, 3000)  # (all of them, others)
+
+
+def caller_driver(scenarios, tag):
+    return vf.run_driver(PID, PKG_CALLER, TEST_CALLER, scenarios, "caller-" + tag, timeout=1500)
+
+
+def deliveries_of(s):
+    return [st for st in s["steps"] if st["ev"] == "Deliver"]
+
+
+def filtered_ahead(st):
+    """the antecedent of the caller's side of the batch contract: the duty lists a validator that is filtered out
+    (it attested this epoch already) AHEAD of one that is served - the filtered list and the duty's arrays differ
+    from that position on"""
+    elig, served = set(st["elig"]), set(st["served"])
+    seen = False
+    for e in st["entries"]:
+        if e["v"] not in elig:
+            seen = True
+        elif seen and e["v"] in served:
+            return True
+    return False
+
+
+def caller_sig_of(s):
+    return {"family": "caller", "acct": s["steps"][0]["acct"], "fork": fork_of(s),
+            "deliveries": [[st["slot"], [[e["v"], e["c"]] for e in st["entries"]]] for st in deliveries_of(s)]}
+
+
+def caller_nontrivial(s, rows):
+    # attestations left Vouch from a delivery in which the batch is not simply the duty (somebody filtered out or
+    # without account, the rest served) or spans committees: pairing by position has something to get wrong
+    by_rid = {st["rid"]: st for st in deliveries_of(s)}
+    for r in rows:
+        if r.get("ev") != "Submit" or not r.get("atts"):
+            continue
+        st = by_rid.get(r.get("rid"))
+        if st is None or not st["served"]:
+            continue
+        if len(st["served"]) < len(st["entries"]):
+            return True
+        if len({e["c"] for e in st["entries"]}) >= 2:
+            return True
+    return False
+
+
+def caller_histories(tier, rnd):
+    """histories of duty deliveries on one wired instance: every pair of duties of Scen_SignerCaller.cfg (every
+    sorted list of <= 3 of our 3 validators x committee assignment x {two slots of the epoch before the fork, the
+    first slot of the fork epoch}) x account populations of a wallet (at most one validator without a validating
+    account), enumerated by TLC; run: the histories in which a validator that attested already is listed ahead
+    of one that is served (quick: seeded sample) plus a seeded sample of the others; thorough adds simulated
+    histories of three deliveries over four validators"""
+    hs = vf.tlc_scenarios(PID, "Scen_SignerCaller", "Scen_SignerCaller.cfg", exhaustive=True, timeout=900,
+                          name="scen-caller")
+    strong = [h for h in hs if any(filtered_ahead(st) for st in h[1:])]
+    rest = [h for h in hs if not any(filtered_ahead(st) for st in h[1:])]
+    rnd.shuffle(strong)
+    rnd.shuffle(rest)
+    n_strong, n_rest = N_CALLER_QUICK if tier == "quick" else N_CALLER_THOROUGH
+    sel = strong[:n_strong] + rest[:n_rest]
+    if tier != "quick":
+        sim = vf.tlc_scenarios(PID, "Scen_SignerCaller", "Scen_SignerCaller_big.cfg", num=3000, depth=20,
+                               name="scen-caller-big", timeout=900)
+        sel += sim[:3000]
+    return sel, len(strong), len(hs)
+
+
 def calls_of(s):
     return [st for st in s["steps"] if st["ev"] == "Call"]
 
@@ -224,17 +298,25 @@ def model_checks(tier):
     runs = [("MC_Signer", "MC_Signer.cfg", 900), ("MC_Signer", "MC_Signer_hist.cfg", 900),
             ("MC_Signer", "MC_Signer_sign.cfg", 900), ("MC_Signer", "MC_Signer_boot.cfg", 900),
             ("SignerCache", "MC_SignerCache_checked.cfg", 900), ("SignerPool", "MC_SignerPool_late.cfg", 900),
-            ("SignerBoot", "MC_SignerBoot_pinned.cfg", 900), ("SignerBoot", "MC_SignerBoot_right.cfg", 900)]
+            ("SignerBoot", "MC_SignerBoot_pinned.cfg", 900), ("SignerBoot", "MC_SignerBoot_right.cfg", 900),
+            # the caller's side (SignerCaller.tla): the pinned pairing and its legal sibling, two deliveries on one
+            # instance; overlapping deliveries on a smaller alphabet
+            ("SignerCaller", "MC_SignerCaller.cfg", 900), ("SignerCaller", "MC_SignerCaller_dutypos.cfg", 900),
+            ("SignerCaller", "MC_SignerCaller_overlap.cfg", 900),
+            # the deviations are right on a fresh instance / when every validator has an account
+            ("SignerCaller", "MC_SignerCaller_filtered_fresh.cfg", 900),
+            ("SignerCaller", "MC_SignerCaller_acctpos_fresh.cfg", 900)]
     if tier == "thorough":
         # the long one first: it is the critical path of the thorough tier
         runs = [("MC_Signer", "MC_Signer_big.cfg", 1800), ("MC_Signer", "MC_Signer_hist_big.cfg", 1800),
-                ("MC_Signer", "MC_Signer_sign_big.cfg", 1800), ("MC_Signer", "MC_Signer_boot_big.cfg", 1800)] + runs
+                ("MC_Signer", "MC_Signer_sign_big.cfg", 1800), ("MC_Signer", "MC_Signer_boot_big.cfg", 1800),
+                ("SignerCaller", "MC_SignerCaller_big.cfg", 1800), ("SignerCaller", "MC_SignerCaller_mid.cfg", 1800)] + runs
     return runs
 
 
 def run_mc(module, cfg, timeout):
     big = cfg == "MC_Signer_big.cfg"
-    small = module == "SignerBoot"
+    small = module == "SignerBoot" or cfg.endswith("_fresh.cfg")
     return vf.tlc_exhaustive(PID, module, cfg, timeout=timeout, workers=8 if big else 1 if small else 4, coverage=big)
 
 
@@ -261,6 +343,23 @@ def run_selfcheck_hist():
     # and the passing control model (MC_SignerPool_late.cfg) is not empty: two requests do complete there
     must_violate("SignerPool", "MC_SignerPool_late_reach.cfg", ("NeverTwoDone",),
                  "(reachability witness) the pool with the right lifetime completing two requests")
+
+
+def run_selfcheck_caller():
+    # THE CALLER'S SIDE of the batch contract: committee data taken at the position in the FILTERED validator list
+    # from the unfiltered duty arrays (seeded/C06-attest-committee-data-by-filtered-position) - right on every fresh
+    # instance (MC_SignerCaller_filtered_fresh.cfg passes) ...
+    must_violate("SignerCaller", "MC_SignerCaller_filtered.cfg", ("PairedOwn",),
+                 "committee data paired by position in the filtered validator list")
+    # ... and the attestation that leaves is attributed to another validator than the one whose key signed it
+    must_violate("SignerCaller", "MC_SignerCaller_filtered_sub.cfg", ("SubmittedRight",),
+                 "committee data paired by position in the filtered validator list")
+    # committee data taken at the position in the accounts array (right while every listed validator has an account)
+    must_violate("SignerCaller", "MC_SignerCaller_acctpos.cfg", ("PairedOwn", "SubmittedRight"),
+                 "committee data paired by position in the accounts array")
+    # and the passing model is not empty: a duty whose first validator is filtered out does attest for a later one
+    must_violate("SignerCaller", "MC_SignerCaller_reach.cfg", ("NeverFilteredAhead",),
+                 "(reachability witness) a re-delivered duty whose first validator already attested, a later one attesting")
 
 
 def run_selfcheck_boot():
@@ -311,11 +410,20 @@ def run(tier):
         "spec provider is not in the alphabet (go-eth2-client never returns one)",
     ]
     with concurrent.futures.ThreadPoolExecutor(max_workers=4) as pool, \
-            concurrent.futures.ThreadPoolExecutor(max_workers=1) as pool2:
+            concurrent.futures.ThreadPoolExecutor(max_workers=1) as pool2, \
+            concurrent.futures.ThreadPoolExecutor(max_workers=1) as pool3:
         # the model-checking runs go on beside scenario generation and the driver
         fut_hist = pool2.submit(overlap_histories, tier, random.Random(vf.seed() + 1))
         futs = [pool.submit(run_mc, m, c, t) for m, c, t in model_checks(tier)]
-        futs_self = [pool.submit(run_selfcheck_hist), pool.submit(run_selfcheck_boot)]
+        futs_self = [pool.submit(run_selfcheck_hist), pool.submit(run_selfcheck_boot), pool.submit(run_selfcheck_caller)]
+
+        def wired():
+            # the wired family is generated and executed beside the signer's own families; its traces are
+            # validated after theirs
+            hs, n_strong, n_all = caller_histories(tier, random.Random(vf.seed() + 2))
+            scs = [{"sc": 100001 + i, "steps": h} for i, h in enumerate(hs)]
+            return scs, n_strong, n_all, caller_driver(scs, "batch")
+        fut_wired = pool3.submit(wired)
         try:
             singles = single_histories(tier, rnd)
             boots = boot_histories(tier, rnd)
@@ -326,6 +434,12 @@ def run(tier):
                    "%d two-request schedules inside the signing phase, %d simulated" % (
                        len(sc), len(singles), len(boots), len(core), len(signs), len(rich)))
             vf.conformance(v, sc, driver, "Trace_Signer", "Trace_Signer.cfg", sig_of, nontrivial, chunk=1500,
+                           tlc_timeout=1500)
+            wsc, n_strong, n_all, wrows = fut_wired.result()
+            vf.log("wired family: %d histories of duty deliveries on one wired instance (of %d enumerated, %d of them "
+                   "with a filtered validator ahead of a served one)" % (len(wsc), n_all, n_strong))
+            vf.conformance(v, wsc, lambda scs, tag: wrows if tag == "batch" else caller_driver(scs, tag),
+                           "Trace_SignerCaller", "Trace_SignerCaller.cfg", caller_sig_of, caller_nontrivial,
                            tlc_timeout=1500)
         finally:
             done = [f.result() for f in futs]
@@ -362,5 +476,9 @@ def replay(path):
     v = vf.Verdict(PID, "quick")
     with open(os.path.join(path, "scenario.json")) as fh:
         s = json.load(fh)
-    vf.conformance(v, [s], driver, "Trace_Signer", "Trace_Signer.cfg", sig_of, nontrivial)
+    if any(st["ev"] == "Deliver" for st in s["steps"]):
+        vf.conformance(v, [s], caller_driver, "Trace_SignerCaller", "Trace_SignerCaller.cfg", caller_sig_of,
+                       caller_nontrivial)
+    else:
+        vf.conformance(v, [s], driver, "Trace_Signer", "Trace_Signer.cfg", sig_of, nontrivial)
     return 1 if v.violations else 0
